@@ -1,4 +1,5 @@
 import Xo.Model.CSem
+import Xo.Lemmas.Refs
 import Xo.Lemmas.CApiLayout
 import Xo.Lemmas.CApiFields
 import Xo.Lemmas.CApiPath
@@ -239,5 +240,31 @@ example :
     let img : MemS.Mem := Lay.apply (Lay.shift 8 (Lay.patchesD tL vL)) (List.replicate 80 0)
     itemOffset (Lay.ldM img) 0 8 (.array (.scalar .i32) [none, some 3] [1, 0]) [1, 2] 0 = 60 ∧
     Lay.mposL [2, 3] [1, 0] [1, 2] = 5 ∧ MemS.fromLE (MemS.readAt img 60 4) = 15 := by decide +kernel
+
+
+/-- the `int64_t` a C accessor loads at a byte address: the two's-complement reading of the 8 bytes (for header words, which are
+below 2^63, it coincides with `ldM`) -/
+def ldS (m : MemS.Mem) : CGen.Load := fun a => Lay.i64of (MemS.readAt m a.toNat 8)
+
+/-- **a path through a reference**: the statement the generator emits for a `Ref` / `UnionRef` step,
+`offset += *(int64_t*)((char*) obj + offset)`, moves the accessor from the slot to the referent the Python view resolves
+(`Ref._from_buffer`: slot address + stored relative offset): `obj + offset'` is exactly `deref` of the slot, for every object
+address, every slot and every memory - also when the referent lies BEFORE the slot (negative relative offset) -/
+theorem C02_ref_step_is_deref (m : MemS.Mem) (obj off : Nat) (idx : List Int) (t : Nat)
+    (hd : Lay.deref m (obj + off) = some t) (hpos : 0 ≤ ((obj + off : Nat) : Int) + Lay.i64of (MemS.readAt m (obj + off) 8)) :
+    (obj : Int) + CGen.Stmt.exec (ldS m) (obj : Int) idx (off : Int) .deref = (t : Int) := by
+  unfold Lay.deref at hd
+  simp only at hd
+  split at hd
+  · cases hd
+  · simp only [Option.some.injEq] at hd
+    subst hd
+    simp only [CGen.Stmt.exec, ldS]
+    have e : ((obj : Int) + (off : Int)).toNat = obj + off := by
+      have : (obj : Int) + (off : Int) = ((obj + off : Nat) : Int) := by push_cast; rfl
+      rw [this, Int.toNat_natCast]
+    rw [e, Int.toNat_of_nonneg hpos]
+    push_cast
+    omega
 
 end CGen
